@@ -242,6 +242,23 @@ func init() {
 					st.violation("C06", key, fmt.Sprintf("tokens [%s]: expected list %v, exact continuation set %v", strings.Join(seq, " "), res.Err.ExpectedTokens, wantExp), cs("expected"))
 					return
 				}
+				// the error is a value the caller keeps: rendering it (twice) must neither change its expected-token
+				// list nor give two different messages
+				if res.ErrObj != nil && im.ErrorString != nil && im.ErrorExpected != nil {
+					before := im.ErrorExpected(res.ErrObj)
+					m1 := im.ErrorString(res.ErrObj)
+					mid := im.ErrorExpected(res.ErrObj)
+					m2 := im.ErrorString(res.ErrObj)
+					st.add("errors_rendered_twice", 1)
+					if strings.Join(before, "\x00") != strings.Join(mid, "\x00") {
+						st.violation("C06", key+" rendered", fmt.Sprintf("tokens [%s]: the error's expected-token list is %q as returned and %q after its message was rendered once", strings.Join(seq, " "), before, mid), cs("expected after rendering"))
+						return
+					}
+					if m1 != m2 {
+						st.violation("C06", key+" rendered", fmt.Sprintf("tokens [%s]: the same error renders as %q and then as %q", strings.Join(seq, " "), m1, m2), cs("message"))
+						return
+					}
+				}
 				// no action ran with the offending token as look-ahead, and nothing was scanned beyond it
 				after := false
 				for _, ev := range rec.Log {
